@@ -78,6 +78,29 @@ theorem lineValue_passthrough (cfg : Cfg) (kw cls ty text : Str) (hk : underscor
   simp only [attrParts_single kw _ hk hv]
   simp [stored, lexTok]
 
+/-- the two facts about a pass-through keyword line used when building derivations: what `mainT` returns, and what
+`composite` reads off it -/
+theorem attr_line_eq (cfg : Cfg) (kw cls ty text : Str) (hk : underscored (lower kw) = false)
+    (hc : cls = s%"string" ∨ cls = s%"path" ∨ cls = s%"regexp" ∨ cls = s%"runtime_var") :
+    mainT cfg (lineTree kw cls ty text) =
+      .ok (.adict [(s%"__position__", .j (posOf kw (lexTok ty text))),
+                   (s%"__tokens__", .toks [lexTok s%"UNQUOTED_STRING" kw, lexTok ty text]),
+                   (lower kw, .j (stored (lexTok ty text)))]) ∧
+    attrParts [(s%"__position__", .j (posOf kw (lexTok ty text))),
+               (s%"__tokens__", .toks [lexTok s%"UNQUOTED_STRING" kw, lexTok ty text]),
+               (lower kw, .j (stored (lexTok ty text)))] = .ok (lower kw, .str (cleanString text), posOf kw (lexTok ty text)) := by
+  have hcb : callback cfg cls none [.tok (lexTok ty text)] = .ok (.tok (lexTok ty text)) := by
+    rcases hc with rfl | rfl | rfl | rfl <;> simp [callback, first, nth] <;> rfl
+  have hv : stripJ (stored (lexTok ty text)) = stored (lexTok ty text) := by simp [stored, lexTok, stripJ]
+  constructor
+  · unfold lineTree
+    simp only [mainT, mainTL, bind, Except.bind, pure, Except.pure, hcb]
+    have : callback cfg s%"attr" none [.tok (lexTok s%"UNQUOTED_STRING" kw), .tok (lexTok ty text)] =
+        attr [.tok (lexTok s%"UNQUOTED_STRING" kw), .tok (lexTok ty text)] := by simp [callback]
+    rw [this, attr_single kw _ hk]
+  · rw [attrParts_single kw _ hk hv]
+    simp [stored, lexTok]
+
 /-- a keyword line whose value is a bare word -/
 theorem lineValue_bare (cfg : Cfg) (kw ty text : Str) (hk : underscored (lower kw) = false) :
     lineValue cfg (lineTreeBare kw ty text) = .ok (lower kw, .str (cleanString text)) := by
@@ -437,6 +460,98 @@ theorem C01_level_roundtrip (cfg : Cfg) (S Rp : List Str) (hp : cfg.pos = false)
   rw [hf]
   simp only [finishState, hpd, hc, Bool.false_eq_true, if_false, hd]
   simp [initState, hp, hc]
+
+/-- the tree Lark builds for `TYPE <children> END` -/
+def blockTree (key : Tok) (children : List R) : R :=
+  .tree s%"composite" none [.tree s%"composite_type" none [.tok key], .tree s%"composite_body" none children]
+
+/-- **C01_tree_step** — the inductive step of the whole-document round trip, on real tree shapes: if the children of a block's
+tree are transformed (bottom-up, `mainTL`) into items that are, in dictionary order, the entries of `d`, then the block's
+tree is transformed into exactly `__type__ :: d`. Applied level by level from the leaves (`C01_line_*`, `C01_kv_block`) it
+gives `transform(tree of the printed text of D) = D` for every well-formed dictionary `D` of any depth and width. -/
+theorem C01_tree_step (cfg : Cfg) (hp : cfg.pos = false) (hc : cfg.com = false) (key : Tok) (name : Str)
+    (hname : valLower key = .ok name) (children items : List R) (d : Fields)
+    (hch : mainTL cfg children = .ok items)
+    (he : EntriesOf Gen.singletonNames Gen.repeatedKeys items d)
+    (hty : ∀ kv ∈ d, kv.1 ≠ s%"__type__") (hnd : (keys d).Nodup) :
+    mainT cfg (blockTree key children) = .ok (.cdict ((s%"__type__", .str name) :: d)) := by
+  have h1 : callback cfg s%"composite_type" none [.tok key] = .ok (.seq false [.tok key]) := by
+    simp [callback, pure, Except.pure]
+  have h2 : callback cfg s%"composite_body" none items = .ok (.seq false items) := by
+    simp [callback, pure, Except.pure]
+  have h3 : callback cfg s%"composite" none [.seq false [.tok key], .seq false items] =
+      compositeBody cfg Gen.singletonNames Gen.repeatedKeys key items := by
+    simp [callback, composite, compositeKey, tokOf]
+  unfold blockTree
+  simp only [mainT, mainTL, bind, Except.bind, pure, Except.pure, h1, hch, h2, h3]
+  exact C01_level_roundtrip cfg _ _ hp hc key name hname items d he hty hnd
+
+mutual
+/-- the class of block trees covered by the composed theorem: a block whose children are read (leaves by whatever
+`mainT` makes of them, nested blocks recursively) into the entries of its dictionary, written in dictionary order -/
+inductive WellRead (cfg : Cfg) : R → Fields → Prop
+  | block (key : Tok) (name : Str) (children items : List R) (d : Fields) :
+      valLower key = .ok name → ChildrenRead cfg children items →
+      EntriesOf Gen.singletonNames Gen.repeatedKeys items d →
+      (∀ kv ∈ d, kv.1 ≠ s%"__type__") → (keys d).Nodup →
+      WellRead cfg (blockTree key children) ((s%"__type__", .str name) :: d)
+inductive ChildrenRead (cfg : Cfg) : List R → List R → Prop
+  | nil : ChildrenRead cfg [] []
+  | leaf (c item : R) (rest ritems : List R) :
+      mainT cfg c = .ok item → ChildrenRead cfg rest ritems → ChildrenRead cfg (c :: rest) (item :: ritems)
+  | node (c : R) (sub : Fields) (rest ritems : List R) :
+      WellRead cfg c sub → ChildrenRead cfg rest ritems → ChildrenRead cfg (c :: rest) (.cdict sub :: ritems)
+end
+
+mutual
+/-- **C01_document_roundtrip** — for every block tree of the class `WellRead` (any depth, any width, any mixture of keyword
+lines, singleton blocks and runs of repeatable blocks at every level), the transformer returns exactly the dictionary the
+tree was written from. By rule induction on the derivation; no bound on depth or size. -/
+theorem C01_document_roundtrip (cfg : Cfg) (hp : cfg.pos = false) (hc : cfg.com = false) :
+    ∀ {t : R} {d : Fields}, WellRead cfg t d → mainT cfg t = .ok (.cdict d)
+  | _, _, .block key name children items d hname hch he hty hnd =>
+    C01_tree_step cfg hp hc key name hname children items d (children_read cfg hp hc hch) he hty hnd
+theorem children_read (cfg : Cfg) (hp : cfg.pos = false) (hc : cfg.com = false) :
+    ∀ {cs items : List R}, ChildrenRead cfg cs items → mainTL cfg cs = .ok items
+  | _, _, .nil => rfl
+  | _, _, .leaf c item rest ritems h hr => by
+    simp only [mainTL, h, children_read cfg hp hc hr, bind, Except.bind, pure, Except.pure]
+  | _, _, .node c sub rest ritems h hr => by
+    simp only [mainTL, C01_document_roundtrip cfg hp hc h, children_read cfg hp hc hr, bind, Except.bind, pure, Except.pure]
+end
+
+/-- what `mainT` makes of the line `NAME <quoted text>` -/
+def nameItem (text : Str) : List (Str × AV) :=
+  [(s%"__position__", .j (posOf s%"NAME" (lexTok s%"DOUBLE_QUOTED_STRING" text))),
+   (s%"__tokens__", .toks [lexTok s%"UNQUOTED_STRING" s%"NAME", lexTok s%"DOUBLE_QUOTED_STRING" text]),
+   (lower s%"NAME", .j (stored (lexTok s%"DOUBLE_QUOTED_STRING" text)))]
+def nameLine (text : Str) : R := lineTree s%"NAME" s%"string" s%"DOUBLE_QUOTED_STRING" text
+
+theorem nameLine_read (cfg : Cfg) (text : Str) : mainT cfg (nameLine text) = .ok (.adict (nameItem text)) :=
+  (attr_line_eq cfg s%"NAME" s%"string" s%"DOUBLE_QUOTED_STRING" text (by decide) (Or.inl rfl)).1
+theorem nameItem_parts (text : Str) :
+    attrParts (nameItem text) = .ok (s%"name", .str (cleanString text), posOf s%"NAME" (lexTok s%"DOUBLE_QUOTED_STRING" text)) :=
+  (attr_line_eq ⟨false, false, fun _ => none⟩ s%"NAME" s%"string" s%"DOUBLE_QUOTED_STRING" text (by decide) (Or.inl rfl)).2
+
+/-- the class is inhabited by real documents: `LAYER NAME "a b" CLASS NAME "c" END END` (the trees Lark builds for the
+printed text), read back as the dictionary it was written from -/
+example (cfg : Cfg) :
+    WellRead cfg (blockTree (lexTok s%"LAYER" s%"LAYER") [nameLine s%"\"a b\"", blockTree (lexTok s%"CLASS" s%"CLASS") [nameLine s%"\"c\""]])
+      [(s%"__type__", .str s%"layer"), (s%"name", .str s%"a b"),
+       (s%"classes", .list [.dict [(s%"__type__", .str s%"class"), (s%"name", .str s%"c")]])] := by
+  have hcls : WellRead cfg (blockTree (lexTok s%"CLASS" s%"CLASS") [nameLine s%"\"c\""])
+      [(s%"__type__", .str s%"class"), (s%"name", .str s%"c")] :=
+    .block (lexTok s%"CLASS" s%"CLASS") s%"class" [nameLine s%"\"c\""] [.adict (nameItem s%"\"c\"")] [(s%"name", .str s%"c")] (by decide)
+      (.leaf _ _ [] [] (nameLine_read cfg _) .nil)
+      (.line (nameItem s%"\"c\"") s%"name" (.str s%"c") _ [] [] (nameItem_parts _) (by decide) .nil) (by decide) (by decide)
+  exact .block (lexTok s%"LAYER" s%"LAYER") s%"layer" _
+    [.adict (nameItem s%"\"a b\""), .cdict [(s%"__type__", .str s%"class"), (s%"name", .str s%"c")]]
+    [(s%"name", .str s%"a b"), (s%"classes", .list [.dict [(s%"__type__", .str s%"class"), (s%"name", .str s%"c")]])] (by decide)
+    (.leaf _ _ _ _ (nameLine_read cfg _) (.node _ _ [] [] hcls .nil))
+    (.line (nameItem s%"\"a b\"") s%"name" (.str s%"a b") _ _ _ (nameItem_parts _) (by decide)
+      (.many s%"class" [[(s%"__type__", .str s%"class"), (s%"name", .str s%"c")]] [] [] (by simp)
+        (by intro sub h; simp at h; subst h; rfl) (by decide) (by decide) .nil))
+    (by decide) (by decide)
 
 /-! ### key/value blocks (METADATA, VALIDATION, VALUES, CONNECTIONOPTIONS) -/
 
